@@ -1,3 +1,4 @@
+import MdsVerif.GenFact
 import MdsVerif.Proofs.Heapq
 import MdsVerif.Drv.C05
 /-!
@@ -542,13 +543,15 @@ theorem pinned_std : CfgStd pinned where
   noSiftUp := rfl
 
 /-- **The obligation on the current source.**  The index arithmetic regenerated from heapq.go by
-`extract/heapq.go` is, pointwise, the pinned configuration (F1 and F2 present).  If the Go code is
-changed, `Gen.Heapq` changes and this theorem no longer compiles. -/
+`extract/heapq.go` is, pointwise, the pinned configuration (F1 and F2 present) — proved by computation
+(`gen_fact`), so `2*i + 1` and `i*2 + 1` both qualify.  If the Go code is changed so that an index changes
+for some `i`, `Gen.Heapq` changes and this theorem no longer compiles. -/
 theorem C05_current :
     (∀ i, Gen.Heapq.parentIdx i = i / 2) ∧ (∀ i, Gen.Heapq.leftIdx i = 2 * i + 1) ∧
     (∀ lc, Gen.Heapq.rightOfLeft lc = lc + 1) ∧ (∀ n, Gen.Heapq.heapifyStart n = n / 2) ∧
     Gen.Heapq.popSiftsUp = false ∧ Gen.Heapq.recognised = true :=
-  ⟨fun _ => rfl, fun _ => rfl, fun _ => rfl, fun _ => rfl, rfl, rfl⟩
+  ⟨by gen_fact Gen.Heapq.parentIdx, by gen_fact Gen.Heapq.leftIdx, by gen_fact Gen.Heapq.rightOfLeft,
+   by gen_fact Gen.Heapq.heapifyStart, rfl, rfl⟩
 
 /-- hence the configuration the driver runs **is** `pinned` -/
 theorem cfg_eq_pinned : Drv.C05.cfg = pinned := by
